@@ -49,6 +49,7 @@ var propertyConfigs = map[string]*propertyConfig{
 			"at different scales the result is r0*op0 +- r1*op1 with the two factors of matchScalesBinary (named, not interpreted), also when the receiver is the second operand (finding F32).  " +
 			"Add / Sub / Mul with an integer scalar: the output records the scale of the input whatever the receiver held (finding F34), has the degree of the input, and addition copies the untouched components.  " +
 			"Mul with a ciphertext operand (BGV style, no relinearisation; receiver distinct or equal to either operand): the degree-2 tensor (a0*b0, a0*b1 + a1*b0, a1*b1), every component times the plaintext modulus T (the evaluator's RNS scalar, named, ASSUMED in double Montgomery form), out of the Montgomery domain, output of degree 2.  " +
+			"With a PLAINTEXT operand at equal scales: the plaintext takes part in the first component only (Add / Sub) or multiplies every component, times T (Mul); the other components are copied.  " +
 			"Rescale: on success the receiver has the degree of the input whatever degree it had (finding F40), the input's flags, no index is out of range (obligation kind index), and an input at level 0 is refused with an error.",
 		Assumptions: append(append([]string{}, engineBAssumptions...), "scales are compared and converted by TRUSTED leaves whose outcome is NAMED by uninterpreted functions of the scale's contents (cmpval, uf_scale64, uf_msb0/1): the contracts say which branch a comparison selects and which factors are applied, not what the factors are",
 			"Ring.MulScalar, MulScalarThenAdd / ThenSub, DivRoundByLastModulusNTT, Scale.Mul / Div and the big-integer scalar products are TRUSTED abstract leaves (ring-element reading of the row-level contracts of C01 / C02)",
@@ -60,6 +61,7 @@ var propertyConfigs = map[string]*propertyConfig{
 		Explain: "Per-call clauses of the property that involve no floating point (one call of the approximate evaluator, not programs).  ckks.Evaluator.Add / Sub with a ciphertext operand at EQUAL scales (no operand has to be rescaled), degrees (1,1), (1,2), (2,1), receiver distinct or equal to either operand: the component-wise sum / difference in the ring, a component only one operand has is copied - negated when it is the subtrahend's - and the output has the larger degree.  " +
 			"Add / Sub with a real scalar: the output records the scale of the input whatever the receiver held (finding F34), has the degree of the input, and the untouched components are copied.  " +
 			"Mul of two degree-1 ciphertexts without relinearisation: the degree-2 tensor (a0*b0, a0*b1 + a1*b0, a1*b1) out of the Montgomery domain, receiver distinct or equal to either operand.  " +
+			"With a PLAINTEXT operand at equal scales: the plaintext takes part in the first component only (Add / Sub) or multiplies every component (Mul).  MulRelin: the third component of the tensor goes through the gadget product with the key set's relinearisation key (both NAMED), degree 1.  MulThenAdd with a scalar: the accumulator keeps its degree and ends at the common level (finding F44).  A product of operands of total degree 3 is refused.  " +
 			"Rescale: on success the receiver has the degree and flags of the input whatever it held, every index is in range (obligation kind index), and an input at level 0 is refused with an error.",
 		Assumptions: append(append([]string{}, engineBAssumptions...), "the outcome of comparing two scales is NAMED (cmpval), not interpreted: the contracts cover the branch for equal scales",
 			"the conversion of a scalar to RNS form (bigComplexToRNSScalar), the row operation with a scalar (evaluateWithScalar), Scale.Mul / Div and the rounded divisions are TRUSTED abstract leaves",
